@@ -33,6 +33,20 @@ def match_semantics(fb, ctx):
     h = fb.hir_of(fm)
     ms = [m for m in hirq.matches_in(h["body"]) if "std::option::Option<std::result::Result<" in (m.get("sty") or "")]
     tab = {}
+    # EVAL first: find_match interpreted for the three shapes of the first item of the rule's result iterator
+    import absint
+    ev_tab = {}
+    try:
+        for key_, first_ in (("None", absint.C("None")), ("Some(Ok)", absint.C("Some", absint.C("Ok", absint.sym("fact")))), ("Some(Err)", absint.C("Some", absint.C("Err", absint.sym("e"))))):
+            it_ = absint.Interp(hooks={"next": lambda interp, recv, args, f_=first_: f_})
+            env_ = {p_["id"]: absint.sym(p_.get("name") or "p") for p_ in (h.get("params") or []) if p_.get("k") == "bind"}
+            r_ = it_.run(h["body"], env_)
+            ev_tab[key_] = ("Ok", r_[2][0]) if absint.tag(r_) == "Ok" and r_[2] and isinstance(r_[2][0], bool) else (("Err",) if absint.tag(r_) == "Err" and "<e>" in absint.show(r_) else ("?", absint.show(r_)))
+    except absint.Unknown:
+        ev_tab = None
+    if ev_tab is not None:
+        ctx.check(ev_tab == {"None": ("Ok", False), "Some(Ok)": ("Ok", True), "Some(Err)": ("Err",)}, "FIND", "find_match: no result -> false, a result -> true, an evaluation error -> Err", "FIND|table", f"abstract evaluation of find_match gives {ev_tab}", f"{fm['file']}:{fm['line']}")
+        ms = []
     for m in ms[:1]:
         for arm in m["arms"]:
             p = arm["pat"]
@@ -52,7 +66,8 @@ def match_semantics(fb, ctx):
                 if tries and (hirq.ctor_name(tl) or "").endswith("::Ok") and hirq.literal(tl["args"][0]) is True:
                     del tab[key]
                     tab["Some(Ok)"], tab["Some(Err)"] = ("Ok", True), ("Err",)
-    ctx.check(tab == {"None": ("Ok", False), "Some(Ok)": ("Ok", True), "Some(Err)": ("Err",)}, "FIND", "find_match: no result -> false, a result -> true, an evaluation error -> Err", "FIND|table", f"found {tab}", f"{fm['file']}:{fm['line']}")
+    if ev_tab is None:
+      ctx.check(tab == {"None": ("Ok", False), "Some(Ok)": ("Ok", True), "Some(Err)": ("Err",)}, "FIND", "find_match: no result -> false, a result -> true, an evaluation error -> Err", "FIND|table", f"found {tab}", f"{fm['file']}:{fm['line']}")
     cm = fb.body(D + "::Rule::check_match_all")
     ch = fb.hir_of(cm)
     # `found` is set on every combination and returned after the loop; a false expression returns Ok(false)
